@@ -243,8 +243,10 @@ def r5_supported_only(ctx, rule):
     ok = True
     incs = [s for s in walk_stmts(fn.body) if isinstance(s, ast.AugAssign) and isinstance(s.target, ast.Subscript) and U(s.target.slice) == bs]
     seen = {}
+    from ..core import quiet_conditions
     for s in incs:
-        conds = [(U(t), p) for t, p in path_conditions(mod, s)]
+        # a new guard that RAISES (a type check on the argument) aborts training loudly; it does not skew a tally
+        conds = [(U(t), p) for t, p in quiet_conditions(mod, s)]
         seen[U(s.target.value)] = conds
     facts = {'increments': seen}
     if seen.get('self.count_base_structures') != [(flag, True)] or seen.get('self.count_raw_base_structures') != []:
